@@ -83,11 +83,11 @@ def classify(line):
 
 CFG = dict(
     imports=["From Verif.C14 Require Import Model Spec Cases.", "Open Scope Z_scope."],
-    checker="check_case",
-    n=dict(quick=300, thorough=6000),
+    checker="check_any",
+    n=dict(quick=300, thorough=8000),
     shard=75,
     classify=classify,
-    rule="IPv4 (60%) or IPv6 (40%: KeyV6/ValueV6, ipVersion-6 Scanner, cali_v6_ccq cleanup values) flavour per case; 1-3 Scan() calls of the real Scanner+LivenessScanner over a table of 1-8 groups (normal entries of TCP/UDP/ICMP/"
+    rule="three streams per 20 cases: 12 scanner cases (below), 7 direct calls of EntryExpired+EntryFinished (random timeouts, protocol 6/17/1/58/132/47/0, every TCP flag shape, DSR, rst_seen timestamps between last_seen and now, idle time at/around every applicable timeout; reasons compared with the model and checked against the rule table), 1 timeouts.GetTimeouts call on a random configuration map (valid, negative, unparsable, unknown and CreationGracePeriod keys).  Scanner cases: IPv4 (60%) or IPv6 (40%: KeyV6/ValueV6, ipVersion-6 Scanner, cali_v6_ccq cleanup values) flavour per case; 1-3 Scan() calls of the real Scanner+LivenessScanner over a table of 1-8 groups (normal entries of TCP/UDP/ICMP/"
          "ICMPv6/SCTP/GRE/protocol 0 in every TCP flag shape incl. DSR and rst_seen timestamp, NAT forward/reverse pairs "
          "with older / equal / random forward timestamps, forward entries without reverse, two forward entries sharing a "
          "reverse, unknown types), last_seen placed at / one ns around / a second around / far from every timeout that can "
